@@ -231,6 +231,10 @@ K_AYM = dict(name="K-aym", package="aym",
                           "libm::sqrt stubbed (exact on 0, 0.5, 1): only the pan gains use it",
                           "envelope_shapes simulates 160 envelope ticks per shape: every trajectory is periodic with period <= 64 after 32 ticks, so all reachable transitions are visited (complete by periodicity, stated in the harness)"])
 
+K_AYM_FLOAT = dict(name="K-aym::resampler", package="aym", tier="thorough", harnesses=["resampler_phase_bounded"], jobs=1, timeout=3000,
+                   functions={"resampler_phase_bounded": ["AymPrecise::process (phase accumulator and one output sample)"]},
+                   assumptions=["one process() call from a freshly constructed chip with symbolic phase in [0,1) and symbolic sample rate 8-384 kHz (interpolator history zero): establishes the phase invariant, not amplitude bounds over time"])
+
 K_AUDIO = dict(name="K-core::audio", package="rustzx-core", features="full",
                harnesses=["beeper_levels"],
                functions={"beeper_levels": ["ZXBeeper::change_state", "ZXBeeper::gen_sample"]},
@@ -247,15 +251,23 @@ K_VTX = dict(name="K-vtx", package="vtx", harnesses=["play_mono", "play_stereo"]
              functions={"*": ["Player::new", "Player::play", "Player::update_ay"]},
              assumptions=["recording AymBackend (sample k has value k) stands in for the chip; harness spliced into vtx (overlay)"])
 
-K_LOADERS = dict(name="K-core::loaders", package="rustzx-core", features="full",
-                 harnesses=["sna_header_48k", "sna_header_128k", "sna_rejects", "sna_faults_48k", "sna_faults_128k", "szx_z80r", "szx_spcr", "szx_ay", "szx_keyb", "szx_amxm", "szx_crtr", "szx_ramp", "szx_unknown"], jobs=5, timeout=3000,
-                 bounded={h: "SZX file of one block; declared size / length enumerated in {0, min-1, min, 40, 2^31}; block content symbolic; stored pages; 4-byte stand-in pages" for h in ["szx_z80r", "szx_spcr", "szx_ay", "szx_keyb", "szx_amxm", "szx_crtr", "szx_ramp", "szx_unknown"]},
-                 functions={"sna_header_48k": ["sna::load (header decode)", "Z80::set_im", "ZXColor::from_bits"], "sna_header_128k": ["sna::load (128K path)"], "sna_rejects": ["sna::load (size / model checks)"], "sna_faults_48k": ["sna::load (error paths)"], "sna_faults_128k": ["sna::load (error paths)"],
-                            "szx_z80r": ["szx::load", "szx::process_z80r_block"], "szx_spcr": ["szx::process_spcr_block"], "szx_ay": ["szx::process_ay_block", "ZXAyChip::set_regs"], "szx_keyb": ["szx::process_keyb_block"], "szx_amxm": ["szx::process_amxm_block"], "szx_crtr": ["szx::process_crtr_block"], "szx_ramp": ["szx::process_ramp_block (stored pages)"], "szx_unknown": ["szx::load (unknown block skipped)"]},
-                 assumptions=CORE_ASSUME + CTL_STUBS + [
-                     "asset = in-memory array with a symbolic reported length and a symbolic injected read/seek failure index",
-                     "page accessors replaced by 4-byte stand-in pages (see K-core::sna); refresh_memory_dependent_devices stubbed",
-                     "miniz_oxide inflate (compressed SZX pages), flate2 and delharc are third-party decoders, not verified: assumed to return Ok/Err within their documented limits"])
+LOADER_ASSUME = CORE_ASSUME + CTL_STUBS + [
+    "asset = in-memory array with a reported length and an injected read/seek failure index",
+    "page accessors replaced by 4-byte stand-in pages (see K-core::sna); refresh_memory_dependent_devices stubbed",
+    "miniz_oxide inflate (compressed SZX pages), flate2 and delharc are third-party decoders, not verified: assumed to return Ok/Err within their documented limits"]
+SZX_H = ["szx_z80r", "szx_spcr", "szx_ay", "szx_keyb", "szx_amxm", "szx_crtr", "szx_ramp", "szx_unknown"]
+K_LOADERS = dict(name="K-core::loaders-sna", package="rustzx-core", features="full",
+                 harnesses=["sna_header_48k", "sna_header_128k", "sna_rejects", "sna_faults_48k", "sna_faults_128k"], jobs=5, timeout=3000,
+                 functions={"sna_header_48k": ["sna::load (header decode)", "Z80::set_im", "ZXColor::from_bits"], "sna_header_128k": ["sna::load (128K path)"],
+                            "sna_rejects": ["sna::load (size / model checks)"], "sna_faults_48k": ["sna::load (error paths)"], "sna_faults_128k": ["sna::load (error paths)"]},
+                 assumptions=LOADER_ASSUME + ["sna_rejects / sna_faults_*: machine, file size class and failing call index enumerated concretely (8 cases each), header bytes and prior CPU state symbolic"])
+K_LOADERS_SZX = dict(name="K-core::loaders-szx", package="rustzx-core", features="full", tier="thorough",
+                 harnesses=SZX_H, jobs=4, timeout=7200,
+                 bounded={h: "SZX file of one block; declared size / length enumerated in {0, min-1, min, 40, 2^31}; block content symbolic; stored pages; 4-byte stand-in pages" for h in SZX_H},
+                 functions={"szx_z80r": ["szx::load", "szx::process_z80r_block"], "szx_spcr": ["szx::process_spcr_block"], "szx_ay": ["szx::process_ay_block", "ZXAyChip::set_regs"],
+                            "szx_keyb": ["szx::process_keyb_block"], "szx_amxm": ["szx::process_amxm_block"], "szx_crtr": ["szx::process_crtr_block"],
+                            "szx_ramp": ["szx::process_ramp_block (stored pages)"], "szx_unknown": ["szx::load (unknown block skipped)"]},
+                 assumptions=LOADER_ASSUME)
 
 K_REFRESH = dict(name="K-core::screen", package="rustzx-core", features="full",
                  harnesses=["refresh_shadow_48k", "refresh_shadow_128k_bank5", "refresh_shadow_128k_bank7"], jobs=3, timeout=3000,
@@ -282,9 +294,9 @@ PROPS = {
     "C14": dict(
         level="proof",
         claim="Kani/CBMC on the real loaders: for every 27-byte SNA header, every prior CPU state and both machines the registers, IFF, interrupt mode, border are exactly the format's decode (Err for mode 3), independent of halted/EI-shadow/prefix state of the receiver, and a snapshot of the other model is rejected; SNA RAM banks and the 128K latch incl. lock through the round-trip harnesses of C13; SZX Z80R decode incl. halted / EI-pending flags (bounded one-block files) and model mismatch rejection; Verus: restore_7ffd sets the latch regardless of a previous lock, ZXAyChip::set_regs restores the register file and programs the generator, every behind-the-bus RAM writer refreshes the display shadow (scan) and refresh covers every display bank (Kani).",
-        note="SZX part BOUNDED (one block <= 40 bytes; zlib pages rely on the unverified miniz_oxide). 'Two encodings of the same state behave identically' follows by transitivity through the decode obligations, not mechanised. SCR loader not separately contracted (size check + read into the bank mapped at 0x4000, read from source). SZX halted-PC convention left as implemented (format ambiguity). Defects repaired: model mismatch (SNA, SZX), locked receiver, AY generator not restored, receiver CPU state.",
+        note="SZX part BOUNDED (one-block files, enumerated sizes; thorough tier only: ~10 min per harness; zlib pages rely on the unverified miniz_oxide). 'Two encodings of the same state behave identically' follows by transitivity through the decode obligations, not mechanised. SCR loader not separately contracted (size check + read into the bank mapped at 0x4000, read from source). SZX halted-PC convention left as implemented (format ambiguity). Defects repaired: model mismatch (SNA, SZX), locked receiver, AY generator not restored, receiver CPU state.",
         verus=["ctl"],
-        kani=[K_LOADERS, K_REFRESH],
+        kani=[K_LOADERS, K_LOADERS_SZX, K_REFRESH],
         scans=[scan_ram_writers_refresh],
         explanation="loader decode obligations against the format descriptions",
         technique="contract-based deductive verification: Kani/CBMC harnesses on the real loaders + Verus contracts",
@@ -294,7 +306,7 @@ PROPS = {
         claim="Totality obligations: Verus proves termination and absence of panics/overflow/out-of-range access (its default obligations) for the host-trait loops read_exact/write_all under ANY host read/write behaviour, the TAP block reader and pulse state machine for all images, frame_registers, the VTX transposition, BlocksCount, ZXColor::from_bits / set_regs preconditions; Kani proves that sna::load returns Ok/Err for every header, reported size class, model combination and an injected asset failure at any call, and (BOUNDED) the same for one-block SZX files and <= 48-byte VTX headers; every K-z80 group additionally proves Z80::emulate free of panics for every CPU state and bus answer (thorough tier).",
         note="BOUNDED parts are reported under bounded_stand_ins. Third-party decoders (miniz_oxide, flate2/GzipAsset, delharc) are out of reach and assumed. Memory proportionality is the explicit size checks now in the loaders (SZX block size <= rest of file, VTX frame size cap), checked by the harness assertions. Twelve loader defects repaired (see known_findings.json fixed entries).",
         verus=["hostio", "tape", "vtx", "screen"],
-        kani=[K_LOADERS, K_VTXLOAD, k_z80("K-z80::total", ["plain_all", "ed_all", "cbx_all"], tier="thorough")],
+        kani=[K_LOADERS, K_LOADERS_SZX, K_VTXLOAD, k_z80("K-z80::total", ["plain_all", "ed_all", "cbx_all"], tier="thorough")],
         explanation="panic-freedom and termination as verifier default obligations on the load paths",
         technique="contract-based deductive verification: Verus default obligations (no panic, no overflow, termination) + Kani/CBMC harnesses",
     ),
@@ -310,8 +322,8 @@ PROPS = {
     "C18": dict(
         level="proof",
         claim="Kani/CBMC proofs of the digital core of the real AymPrecise generator: tone period 12 bits (0 as 1) and flip every TP ticks; noise period 5 bits, 17-bit LFSR with taps 0 and 3 shifting every 2*NP ticks; envelope period 16 bits, level sequence of all 16 shapes equal to the documented closed form; register decode R0-R13 incl. mixer gates and volume/envelope select; DAC level index always < 32 (the assert is unreachable), DAC tables strictly increasing in the 4-bit volume; stereo placement per mode. Port side: register select masks to 4 bits and data read-back returns the last written value (Verus on ZXAyChip; Kani read_io).",
-        note="Out of reach and NOT claimed: the f64 resampling / FIR decimation / DC filter (sample finiteness and bounds, spectral content, sample rates). One generator tick = one update_mixer call = f_clk/8, so tone frequency f_clk/(16*TP) etc. follow from the tick contracts by induction (not a mechanised lemma).",
-        kani=[K_AYM, K_READ_IO],
+        note="Out of reach and NOT claimed: the f64 FIR decimation / DC filter (sample bounds over time, spectral content). The resampler's phase invariant 0 <= x < 1 for every sample rate 8-384 kHz IS checked (thorough tier) and found a defect (phase escaping at rates below 27.7 kHz), repaired. One generator tick = one update_mixer call = f_clk/8, so tone frequency f_clk/(16*TP) etc. follow from the tick contracts by induction (not a mechanised lemma).",
+        kani=[K_AYM, K_AYM_FLOAT, K_READ_IO],
         verus=["ctl"],
         explanation="one-tick contracts + closed-form envelope + register decode",
         technique="contract-based deductive verification: Kani/CBMC harnesses on the real crate + Verus contracts on ZXAyChip",
